@@ -16,7 +16,7 @@ TRANSPARENT = """Expr ArrayLit UnaryExpr BinExpr AssignExpr MemberExpr MemberPro
 ArrowExpr Tpl ParenExpr Callee ExprOrSpread BlockStmtOrExpr AssignTarget SimpleAssignTarget OptChainExpr
 OptChainBase OptCall Ident IdentName BindingIdent Lit Str Null Stmt BlockStmt IfStmt ReturnStmt ExprStmt VarDecl
 VarDeclarator VarDeclKind Pat Decl ModuleItem Program Script Module BinaryOp AssignOp UnaryOp ObjectLit PropOrSpread
-Prop KeyValueProp PropName Span BytePos""".split()
+Prop KeyValueProp PropName Span BytePos Invalid""".split()
 
 COPY_TYPES = {"BinaryOp", "AssignOp", "UnaryOp", "VarDeclKind", "Span", "BytePos", "SyntaxContext"}
 BUILTIN = {"Box", "Vec", "Option", "String", "Self", "Atom", "JsWord", "SyntaxContext"}
